@@ -30,6 +30,10 @@ def harness():
     return common.build("subject_h", ["observer/subject_harness.cpp"], FLAGS, [])
 
 
+def plain_harness():
+    return common.build("subject_plain", ["observer/subject_harness.cpp"], ["-O1", "-g", "-UNDEBUG"], [])
+
+
 def sc_str(sc):
     return ",".join("%s:%d" % (o["k"], o["t"]) for o in sc) if len(sc) else "-"
 
@@ -246,6 +250,12 @@ def check(pid, tier, seed):
     ycount = {"quick": 300, "thorough": 40000}[tier]
     ys, ycfg = y_scripts(seed, ycount, reentrant=(pid == "C10"))
     yres = common.run_harness(exe, ys)
+    # the same kind of histories on a build WITHOUT AddressSanitizer: its quarantine never hands a freed block out again, but the
+    # ordinary allocator gives a new observer the address of the one that was just removed (an address is not an identity)
+    ys2, ycfg2 = y_scripts("%s-plain" % seed, ycount, reentrant=(pid == "C10"))
+    ys2 = "\n".join(l.replace("X y", "X z", 1) if l.startswith("X y") else l for l in ys2.split("\n"))
+    yres.update(common.run_harness(plain_harness(), ys2))
+    ycfg.update({"z" + x[1:]: c for x, c in ycfg2.items()})
     execs = {}
     for x, c in ycfg.items():
         recs = yres.get(x, [])
@@ -282,8 +292,8 @@ def check(pid, tier, seed):
 
 
 def all_harnesses():
-    exe = harness()
-    return {exe.name: exe}
+    exe, pl = harness(), plain_harness()
+    return {exe.name: exe, pl.name: pl}
 
 
 def replay(pid, path):
